@@ -30,6 +30,17 @@ def programs(tier: str):
     return out
 
 
+def diff_signature(o1, o2) -> str:
+    """Coarse signature of a behavioural difference (part of the fingerprint)."""
+    import collections
+    c1, c2 = collections.Counter(o1[0]), collections.Counter(o2[0])
+    if o1[1] == o2[1]:
+        if all(c2[k] >= v for k, v in c1.items()):
+            return "eager"            # same outcome, the other side makes all calls of the function plus more / reordered
+        return "calls"                # same outcome, calls missing or changed
+    return "outcome"                  # different result / exception / termination
+
+
 def check_program(label: str, src: str, acc: Acc, horizon: int, raising: bool = False):
     p = roundtrip(src)
     acc.counters[f"pipeline[{p.status}]"] += 1
@@ -66,7 +77,7 @@ def check_program(label: str, src: str, acc: Acc, horizon: int, raising: bool = 
     acc.outcomes |= {("run",) + (o,) for o in st.outcomes}
     if diffs:
         choices, o1, o2 = diffs[0]
-        kind = "outcome" if o1[0] == o2[0] else "calls"
+        kind = diff_signature(o1, o2)
         acc.viol(PROP, f"{PROP}/behaviour-differs/{kind}",
                  f"{label}: answers {list(choices)}: original -> {o1[1]!r} after {len(o1[0])} calls; regenerated -> {o2[1]!r} after {len(o2[0])} calls",
                  (src,), shape=source_shapes(src),
